@@ -2,9 +2,17 @@
 package c07
 
 import (
+	"context"
 	"fmt"
+	"regexp"
+	"runtime"
 	"strings"
+	"sync"
+	"sync/atomic"
 	"testing"
+	"time"
+
+	"github.com/whoisnian/glb/tasklane"
 
 	"pgregory.net/rapid"
 
@@ -142,4 +150,95 @@ func checkHooks(t *testing.T) {
 			rt.Inconclusivef(t, "hook point %s was never reached: the verif hooks in tasklane are missing or moved", pt)
 		}
 	}
+}
+
+// ---- many producers racing for the last free slots when the cancel lands (real clock) ----
+
+type pinTask struct {
+	gate    chan struct{}
+	started atomic.Int32
+}
+
+func (p *pinTask) Start() { p.started.Add(1); <-p.gate }
+
+var bareSendInPushTask = regexp.MustCompile(`goroutine \d+ \[chan send[^\]]*\]:\n(?:[^\n]*\n){0,8}?[^\n]*tasklane\.\(\*TaskLane\)\.PushTask`)
+
+// TestProducersRacingAtCancel: the lane's only worker is busy, its queue goroutine holds a task it cannot hand over, the
+// buffer has one to three free slots - and several times as many producers as there are processors, released together,
+// call PushTask with a timeout of an hour. Then the context is cancelled. Whoever got a slot has nil; everybody else is
+// released by the cancel. The windows in which two producers both believe a slot is theirs are nanoseconds wide: they
+// are reached by the number of rounds. A producer that is still inside PushTask long after the cancel is reported when
+// the goroutine dump shows it in a channel send without a select around it - a state the unchanged PushTask cannot be in.
+func TestProducersRacingAtCancel(t *testing.T) {
+	rt.Check(t, 4, 120, func(t *rapid.T) {
+		rounds := 25
+		producers := 8 * runtime.GOMAXPROCS(0)
+		for round := 0; round < rounds; round++ {
+			q := rapid.IntRange(1, 3).Draw(t, "queueSize")
+			free := rapid.IntRange(1, q).Draw(t, "freeSlots")
+			ctx, cancel := context.WithCancel(context.Background())
+			tl := tasklane.New(ctx, 1, q)
+			tl.SetTimeout(time.Hour)
+			gate := make(chan struct{})
+			pin := &pinTask{gate: gate}
+			if err := tl.PushTask(pin, 0); err != nil {
+				t.Fatalf("round %d: PushTask on a fresh lane returned %v", round, err)
+			}
+			for i := 0; pin.started.Load() == 0; i++ {
+				if i > 10_000_000 {
+					cancel()
+					fmt.Println("HARNESS-INCONCLUSIVE: the first task was not started")
+					t.Fatalf("harness inconclusive")
+				}
+				runtime.Gosched()
+			}
+			tl.PushTask(&pinTask{gate: gate}, 0) // taken by the queue goroutine, which finds the worker busy
+			time.Sleep(time.Millisecond)
+			for i := 0; i < q-free; i++ {
+				tl.PushTask(&pinTask{gate: gate}, 0)
+			}
+			var arrived, returned atomic.Int32
+			var wg sync.WaitGroup
+			for i := 0; i < producers; i++ {
+				wg.Add(1)
+				go func() {
+					defer wg.Done()
+					arrived.Add(1)
+					for spin := 0; arrived.Load() < int32(producers); spin++ {
+						if spin > 200 {
+							runtime.Gosched()
+						}
+					}
+					tl.PushTask(&pinTask{gate: gate}, 0)
+					returned.Add(1)
+				}()
+			}
+			for arrived.Load() < int32(producers) {
+				runtime.Gosched()
+			}
+			time.Sleep(time.Duration(rapid.IntRange(0, 3).Draw(t, "cancelAfterMs")) * time.Millisecond)
+			cancel()
+			deadline := time.Now().Add(30 * time.Second)
+			for returned.Load() < int32(producers) && time.Now().Before(deadline) {
+				time.Sleep(time.Millisecond)
+			}
+			if n := int32(producers) - returned.Load(); n > 0 {
+				buf := make([]byte, 8<<20)
+				buf = buf[:runtime.Stack(buf, true)]
+				close(gate)
+				if bareSendInPushTask.Match(buf) {
+					t.Fatalf("round %d (queueSize %d, %d free slots, %d producers): 30 s after the context was cancelled %d PushTask call(s) have not returned; the goroutine dump shows them inside PushTask in a channel send that no cancel can reach", round, q, free, producers, n)
+				}
+				fmt.Printf("HARNESS-INCONCLUSIVE: %d producers have not returned 30 s after the cancel, but none of them is in a bare channel send inside PushTask\n", n)
+				t.Fatalf("harness inconclusive")
+			}
+			close(gate)
+			wg.Wait()
+			tl.Wait()
+		}
+		ev.LabelN("rounds_of_producers_racing_for_the_last_slots_at_cancel", int64(rounds))
+		ev.Case(true, ev.Hash("race", fmt.Sprint(producers)), func() string {
+			return fmt.Sprintf("%d rounds: %d producers released together against 1-3 free slots of a lane whose worker is busy, then cancel", rounds, producers)
+		})
+	})
 }
